@@ -1,4 +1,4 @@
-import EupsModel.Lemmas.VersionConv
+import EupsModel.Lemmas.VersionMatch
 /-! C10 — version names are ordered consistently: property theorems.
 
 `stdCompare strict a b` is the model of `hooks.version_cmp(a, b, mustReturnInt = !strict)`
@@ -224,6 +224,118 @@ example : stdCompare false n_1d9 n_1d10 = .ok (-1) ∧ stdCompare true n_1d9 n_1
 example : stdCompare false n_1d2 n_1d2d0 = .ok (-1) := by decide
 example : stdCompare false n_1d2mrc1 n_1d2 = .ok (-1) ∧ stdCompare false n_1d2p1 n_1d2 = .ok 1 := by decide
 example : stdCompare false n_1d2mrc1p3 n_1d2p1 = .ok (-1) := by decide
+
+/-! ## relational requests
+
+`versionMatch x expr` is the model of `Eups.version_match(x, expr)` being truthy.  `render t ts` is the
+text `op v || op v || …` (single blanks), `isRelop`: one of `< <= == >= >`, `wfName`: non-empty, over
+`[A-Za-z0-9._+-]`. -/
+
+/-- the relation an operator stands for, on the sign of the comparison -/
+def relSem (op : Str) (r : Int) : Prop :=
+  (op = opLt ∧ r < 0) ∨ (op = opLe ∧ r ≤ 0) ∨ (op = opEq ∧ r = 0) ∨ (op = opGe ∧ r ≥ 0) ∨ (op = opGt ∧ r > 0)
+
+theorem termHolds_iff (cmp : Str → Str → Except Err Int) (x : Str) (t : Term) (hop : isRelop t.1) :
+    termHolds cmp x t = true ↔ ∃ r, cmp x t.2 = .ok r ∧ relSem t.1 r := by
+  have d : opLt ≠ opLe ∧ opLt ≠ opEq ∧ opLt ≠ opGe ∧ opLt ≠ opGt ∧ opLe ≠ opEq ∧ opLe ≠ opGe ∧ opLe ≠ opGt ∧
+      opEq ≠ opGe ∧ opEq ≠ opGt ∧ opGe ≠ opGt := by decide
+  obtain ⟨d1, d2, d3, d4, d5, d6, d7, d8, d9, d10⟩ := d
+  simp only [termHolds]
+  cases hc : cmp x t.2 with
+  | error e => simp
+  | ok r =>
+    simp only [Except.ok.injEq, exists_eq_left']
+    rcases hop with h | h | h | h | h <;> rw [h] <;>
+      simp [relHolds, relSem, d1, d2, d3, d4, d5, d6, d7, d8, d9, d10, d1.symm, d2.symm, d3.symm, d4.symm, d5.symm,
+        d6.symm, d7.symm, d8.symm, d9.symm, d10.symm]
+
+/-- **Relational requests accept exactly the versions the order puts in the stated relation, and an
+`||` chain is the disjunction of its terms** — for every name `x` and every chain whose comparisons
+with `x` are defined in the strict mode (no "cannot be sorted", no malformed name). -/
+theorem C10_match_iff (x : Str) (t : Term) (ts : List Term)
+    (hwf : ∀ y ∈ t :: ts, WfTerm y) (hcmp : ∀ y ∈ t :: ts, ∃ r, stdCompare true x y.2 = .ok r) :
+    versionMatch x (render t ts) = .ok true ↔
+      ∃ y ∈ t :: ts, ∃ r, stdCompare true x y.2 = .ok r ∧ relSem y.1 r := by
+  have htok := tokenize_render t ts (hwf t (by simp)) (fun y hy => hwf y (by simp [hy]))
+  have hloop := matchLoop_chain (stdCompare true) x t ts (fun y hy => ⟨(hwf y hy).1, hcmp y hy⟩)
+  simp only [versionMatch, htok, hloop, Except.ok.injEq, List.any_eq_true]
+  constructor
+  · rintro ⟨y, hy, hh⟩
+    exact ⟨y, hy, (termHolds_iff _ x y (hwf y hy).1).mp hh⟩
+  · rintro ⟨y, hy, hh⟩
+    exact ⟨y, hy, (termHolds_iff _ x y (hwf y hy).1).mpr hh⟩
+
+/-- … and never fails on such a chain. -/
+theorem C10_match_total (x : Str) (t : Term) (ts : List Term)
+    (hwf : ∀ y ∈ t :: ts, WfTerm y) (hcmp : ∀ y ∈ t :: ts, ∃ r, stdCompare true x y.2 = .ok r) :
+    ∃ b, versionMatch x (render t ts) = .ok b := by
+  have htok := tokenize_render t ts (hwf t (by simp)) (fun y hy => hwf y (by simp [hy]))
+  have hloop := matchLoop_chain (stdCompare true) x t ts (fun y hy => ⟨(hwf y hy).1, hcmp y hy⟩)
+  exact ⟨(t :: ts).any (termHolds (stdCompare true) x), by simp only [versionMatch, htok, hloop]⟩
+
+/-- On conventional names of the property's grammar with the same letters in front the comparisons
+are always defined and are the sorting order: the request matches iff some term holds in that order. -/
+theorem C10_match_iff_conv (x : Str) (lx : Lexed) (hlx : lex x = .ok lx) (hx : conventional lx = true)
+    (t : Term) (ts : List Term) (hwf : ∀ y ∈ t :: ts, WfTerm y)
+    (hconv : ∀ y ∈ t :: ts, ∃ ly, lex y.2 = .ok ly ∧ conventional ly = true ∧ letterPrefix lx = letterPrefix ly) :
+    versionMatch x (render t ts) = .ok true ↔
+      ∃ y ∈ t :: ts, ∃ r, stdCompare false x y.2 = .ok r ∧ relSem y.1 r := by
+  have hst : ∀ y ∈ t :: ts, stdCompare true x y.2 = stdCompare false x y.2 := by
+    intro y hy
+    obtain ⟨ly, hly, hc, hp⟩ := hconv y hy
+    exact C10_conv_strict_total x y.2 lx ly hlx hly hx hc hp
+  have hcmp : ∀ y ∈ t :: ts, ∃ r, stdCompare true x y.2 = .ok r := by
+    intro y hy
+    obtain ⟨ly, hly, _, _⟩ := hconv y hy
+    rw [hst y hy]
+    exact C10_sort_total x y.2 lx ly hlx hly
+  rw [C10_match_iff x t ts hwf hcmp]
+  constructor
+  · rintro ⟨y, hy, r, h1, h2⟩; exact ⟨y, hy, r, by rw [← hst y hy]; exact h1, h2⟩
+  · rintro ⟨y, hy, r, h1, h2⟩; exact ⟨y, hy, r, by rw [hst y hy]; exact h1, h2⟩
+
+/-- A version that cannot be sorted against the request's does not match. -/
+theorem C10_match_unsortable (x : Str) (t : Term) (hwf : WfTerm t)
+    (h : stdCompare true x t.2 = .error .unsortable) : versionMatch x (render t []) = .ok false := by
+  have htok := tokenize_render t [] hwf (by simp)
+  simp [versionMatch, htok, tailToks, matchLoop, hasRelop_relop hwf.1, matchPrim, h]
+
+/-- A bare version is the request `== version`. -/
+theorem C10_match_implicit_eq (x v : Str) (hv : wfName v) (h1 : v ≠ sAnd) (h2 : v ≠ sOr) :
+    versionMatch x v = versionMatch x (render (opEq, v) []) := by
+  have htok := tokenize_render (opEq, v) [] ⟨Or.inr (Or.inr (Or.inl rfl)), hv⟩ (by simp)
+  have e1 : hasRelop opEq = true := by decide
+  simp [versionMatch, htok, tokenize_name hv, tailToks, matchLoop, hasRelop_name hv.2, plainTok_name hv, h1, h2, e1]
+
+/-! ## latest -/
+
+/-- **`latest` is the maximum**: from a non-empty list of conventional names the selection returns a
+member that no member exceeds, at its first position in the list. -/
+theorem C10_latest_is_max (names : List Str) (hne : names ≠ []) (hconv : ∀ v ∈ names, convName v = true) :
+    ∃ i v, latest names = .ok (some i) ∧ names[i]? = some v ∧ (∀ j, j < i → names[j]? ≠ some v) ∧
+      ∀ w ∈ names, ∃ r, stdCompare false w v = .ok r ∧ r ≤ 0 := by
+  obtain ⟨ps, hps, hc⟩ := lexPairs_of_conv hconv
+  obtain ⟨hmap, hlex⟩ := lexPairs_spec hps
+  have hpne : ps ≠ [] := by
+    intro e; subst e; simp at hmap; exact hne hmap
+  obtain ⟨m, hm, hmem, hmax⟩ := lastMax_none_spec ps hpne hc
+  have hv : m.1 ∈ names := by rw [← hmap]; exact List.mem_map_of_mem hmem
+  obtain ⟨hget, hfirst⟩ := findIdx_beq_spec names m.1 hv
+  refine ⟨names.findIdx (· == m.1), m.1, ?_, hget, hfirst, ?_⟩
+  · simp only [latest, hps, hm]
+  · intro w hw
+    rw [← hmap] at hw
+    obtain ⟨p, hp, rfl⟩ := List.mem_map.mp hw
+    refine ⟨cmpSort p.2 m.2, ?_, hmax p hp⟩
+    simp [stdCompare, hlex p hp, hlex m hmem, cmpLexed]
+
+/-! non-vacuity: a chain, its rendering, the loop's answer; a list and its latest member -/
+example : render (opGe, n_1d2) [(opLt, n_1d10)] = [62, 61, 32, 49, 46, 50, 32, 124, 124, 32, 60, 32, 49, 46, 49, 48] := by decide
+#guard Str.toString (render (opGe, n_1d2) [(opLt, n_1d10)]) == ">= 1.2 || < 1.10"
+example : versionMatch n_1d9 (render (opGe, n_1d10) [(opLt, n_1d2)]) = .ok false := by decide
+example : versionMatch n_1d9 (render (opGe, n_1d10) [(opLe, n_1d9)]) = .ok true := by decide
+example : versionMatch n_v1 (render (opGe, n_w1) []) = .ok false := by decide     -- unsortable: no match
+example : latest [n_1d9, n_1d10, n_1d2, n_1d10] = .ok (some 1) := by decide
 
 /-! ## witnesses -/
 
